@@ -1,5 +1,5 @@
 (* Properties/C18.v — Document sets select by tag, keep insertion order and honour the re-add policy. *)
-From Coq Require Import List String Bool ZArith Arith.
+From Coq Require Import List String Bool ZArith Arith Permutation.
 From YT Require Import Base.Str Base.KV Model.Doc Model.Dom Model.Overlay Model.DocSet Proofs.OverlayProofs Proofs.DocSetProofs.
 Import ListNotations.
 Local Open Scope list_scope.
@@ -74,4 +74,109 @@ Example C18_ex :
                    DTagged ["dev"%string]; DNamed "app"; DAsOne] =
   [DObsOk true; DObsOk true; DObsOk true; DObsOk false;
    DObsOverlay ["app"%string] [d1]; DObsDoc (Some d1); DObsOverlay ["app"; "db"]%string [d1; d2]].
+Proof. vm_compute. reflexivity. Qed.
+
+(* ---------- the batch forms of "all DocumentSet methods": AddDocumentsFromDirectory, AddDocumentsFromManifest,
+   AddPropertiesFromManifest.  [files] = the files the pattern matches, in glob order, each with what its decoder makes of
+   it (None: unreadable or undecodable); [items] = the text items of the manifest in List() order. *)
+
+(* A directory add succeeds only if every file decoded, and then appends the paths in glob order ... *)
+Theorem C18_dir_ok_decoded : forall files tags pol ds,
+  snd (ds_add_files files tags pol ds) = true -> decoded files.
+Proof. exact add_files_ok_decoded. Qed.
+Print Assumptions C18_dir_ok_decoded.
+Theorem C18_dir_ok_names : forall files tags pol ds,
+  snd (ds_add_files files tags pol ds) = true ->
+  ds_names (fst (ds_add_files files tags pol ds)) = ds_names ds ++ map fst files.
+Proof. exact add_files_ok_names. Qed.
+Print Assumptions C18_dir_ok_names.
+
+(* ... it IS the sequence of single adds (so every re-add law above applies file by file) ... *)
+Theorem C18_dir_is_fold : forall files tags pol ds,
+  pol <> PMustCreate -> decoded files ->
+  ds_add_files files tags pol ds =
+  (fold_left (fun acc f => match snd f with Some d => fst (ds_add (fst f) d tags pol acc) | None => acc end) files ds, true).
+Proof. exact add_files_is_fold. Qed.
+Print Assumptions C18_dir_is_fold.
+
+(* ... every file is then served under its own path ... *)
+Theorem C18_dir_named : forall files tags pol ds n d,
+  snd (ds_add_files files tags pol ds) = true -> NoDup (map fst files) -> In (n, Some d) files ->
+  (pol = PMergeTags -> ctx_get n (ds_ctx ds) = None) ->
+  ds_named n (fst (ds_add_files files tags pol ds)) = Some d.
+Proof. exact add_files_named. Qed.
+Print Assumptions C18_dir_named.
+
+(* ... the first unreadable file ends the call with an error: the files before it stay registered, the later ones are
+   not looked at; must-create stops at the first path that is already registered and changes nothing there ... *)
+Theorem C18_dir_first_failure : forall l1 n l2 tags pol ds,
+  pol <> PMustCreate -> decoded l1 ->
+  ds_add_files (l1 ++ (n, None) :: l2) tags pol ds = (fst (ds_add_files l1 tags pol ds), false).
+Proof. exact add_files_first_failure. Qed.
+Print Assumptions C18_dir_first_failure.
+Theorem C18_dir_must_create_stops : forall n d r tags ds c,
+  ctx_get n (ds_ctx ds) = Some c -> ds_add_files ((n, Some d) :: r) tags PMustCreate ds = (ds, false).
+Proof. exact add_files_must_create_stops. Qed.
+Print Assumptions C18_dir_must_create_stops.
+
+(* ... and names outside the batch are served as before, the '*' invariant survives. *)
+Theorem C18_dir_other_name : forall files tags pol ds m,
+  ~ In m (map fst files) -> ctx_get m (ds_ctx (fst (ds_add_files files tags pol ds))) = ctx_get m (ds_ctx ds).
+Proof. exact add_files_other_name. Qed.
+Print Assumptions C18_dir_other_name.
+Theorem C18_dir_star : forall files tags pol ds, all_star ds -> all_star (fst (ds_add_files files tags pol ds)).
+Proof. exact add_files_star. Qed.
+Print Assumptions C18_dir_star.
+
+(* Manifest items: each decodable item is served as "<manifest>/<item>", an undecodable one is skipped and the call
+   goes on; other names untouched; '*' invariant. *)
+Theorem C18_items_named : forall manifest items tags pol ds k d,
+  NoDup (map fst items) -> In (k, Some d) items -> pol <> PMustCreate ->
+  (pol = PMergeTags -> ctx_get (item_name manifest k) (ds_ctx ds) = None) ->
+  ds_named (item_name manifest k) (ds_add_items manifest items tags pol ds) = Some d.
+Proof. exact add_items_named. Qed.
+Print Assumptions C18_items_named.
+Theorem C18_items_skip_undecodable : forall manifest l1 k l2 tags pol ds,
+  ds_add_items manifest (l1 ++ (k, None) :: l2) tags pol ds = ds_add_items manifest (l1 ++ l2) tags pol ds.
+Proof. exact add_items_skips_undecodable. Qed.
+Print Assumptions C18_items_skip_undecodable.
+Theorem C18_items_other_name : forall manifest items tags pol ds m,
+  (forall it, In it (map fst items) -> m <> item_name manifest it) ->
+  ctx_get m (ds_ctx (ds_add_items manifest items tags pol ds)) = ctx_get m (ds_ctx ds).
+Proof. exact add_items_other_name. Qed.
+Print Assumptions C18_items_other_name.
+Theorem C18_items_star : forall manifest items tags pol ds,
+  all_star ds -> all_star (ds_add_items manifest items tags pol ds).
+Proof. exact add_items_star. Qed.
+Print Assumptions C18_items_star.
+
+(* The manifest hands its items out of a Go map: AddDocumentsFromManifest meets them in the map's iteration order.
+   What is served under EVERY name is the same for every such order (only the relative position of the new layers
+   follows it); each decodable item gets exactly the effect of one single add on what was stored under its name. *)
+Theorem C18_items_order_independent : forall manifest items items' tags pol ds m,
+  Permutation items items' -> NoDup (map fst items) ->
+  ctx_get m (ds_ctx (ds_add_items manifest items tags pol ds)) =
+  ctx_get m (ds_ctx (ds_add_items manifest items' tags pol ds)).
+Proof. exact add_items_order_independent. Qed.
+Print Assumptions C18_items_order_independent.
+Theorem C18_items_own_effect : forall manifest items tags pol ds k d,
+  NoDup (map fst items) -> In (k, Some d) items ->
+  ctx_get (item_name manifest k) (ds_ctx (ds_add_items manifest items tags pol ds)) =
+  add_effect d tags pol (ctx_get (item_name manifest k) (ds_ctx ds)).
+Proof. exact add_items_own. Qed.
+Print Assumptions C18_items_own_effect.
+
+(* non-vacuity: a directory whose second file is broken, a manifest with an undecodable item, a manifest read as ONE
+   properties document (item names are dotted paths) *)
+Example C18_batch_ex :
+  let d1 := Con [("a"%string, Leaf (SInt 1))] in let d2 := Con [("b"%string, Leaf (SInt 2))] in
+  ds_run ds_empty [DAddFiles [("/t/1.yaml"%string, Some d1); ("/t/2.yaml"%string, None); ("/t/3.yaml"%string, Some d2)] ["x"%string] PNone;
+                   DAddItems "/t/m.yaml" (Some [("i.json"%string, Some d2); ("j.yaml"%string, None)]) [] PNone;
+                   DAddProps "/t/p.yaml" (Some [("a.b"%string, "1"%string); ("a.c[1]"%string, "z"%string)]) [] PMustCreate;
+                   DAddItems "/t/none.yaml" None [] PNone;
+                   DTagged ["x"%string]; DAsOne] =
+  [DObsOk false; DObsOk true; DObsOk true; DObsOk false;
+   DObsOverlay ["/t/1.yaml"%string] [d1];
+   DObsOverlay ["/t/1.yaml"; "/t/m.yaml/i.json"; "/t/p.yaml"]%string
+     [d1; d2; Con [("a"%string, Con [("b"%string, Leaf (SStr "1")); ("c"%string, Lst [Leaf SNull; Leaf (SStr "z")])])]]].
 Proof. vm_compute. reflexivity. Qed.
